@@ -84,17 +84,94 @@ Proof.
   - right. inversion H; subst. eauto.
 Qed.
 
+(* R6 for the repaired _recover: the Error handed to the @error action is either
+   the one of this detection (recover_errsym: it carries the lookahead token) or
+   an Error that was sitting in a stack entry popped by this recovery (the Error
+   of an earlier recovery whose @error production was not reduced yet). *)
+Definition is_verr (v : value) : Prop := match v with VErr _ _ => True | _ => False end.
+
+Lemma read_token_stack s s' : read_token tb s = Some s' -> stack s' = stack s.
+Proof.
+  unfold read_token. destruct (negb (qla s =? -1)%Z).
+  - intros H; inversion H; reflexivity.
+  - unfold lex_read. destruct (input s) as [|ty rest].
+    + simpl. intros H; inversion H; reflexivity.
+    + cbv beta iota zeta. destruct (ty =? ERROR)%Z.
+      * match goal with |- context [make_error tb ?x] => destruct (make_error tb x) end;
+          intros H; inversion H; reflexivity.
+      * intros H; inversion H; reflexivity.
+Qed.
+
+Lemma skip_errors_stack f : forall s s1, skip_errors tb f s = Continue s1 -> stack s1 = stack s.
+Proof.
+  induction f as [|f IH]; intros s s1 H; [discriminate|]. cbn [skip_errors] in H.
+  destruct (la s =? ERROR)%Z.
+  - destruct (read_token tb s) as [s'|] eqn:E; [|discriminate].
+    rewrite (IH _ _ H). eapply read_token_stack; eauto.
+  - inversion H; reflexivity.
+Qed.
+
+Lemma recover_pops_errsym f look : forall st e,
+  match recover_pops tb f st look e with
+  | PFound _ e' | PExhausted e' =>
+      e' = e \/ exists it, In it st /\ i_sym it = e' /\ is_verr e'
+  | _ => True
+  end.
+Proof.
+  induction st as [|top st IH]; intros e; cbn [recover_pops]; auto.
+  destruct (recover_sim tb f (map i_state (top :: st)) look); auto.
+  specialize (IH (match i_sym top with VErr _ _ => i_sym top | _ => e end)).
+  assert (Hcase : forall e', (e' = match i_sym top with VErr _ _ => i_sym top | _ => e end \/
+                              exists it, In it st /\ i_sym it = e' /\ is_verr e') ->
+                             e' = e \/ exists it, In it (top :: st) /\ i_sym it = e' /\ is_verr e').
+  { intros e' [->|(it & Hin & Hs & Hv)].
+    - destruct (i_sym top) eqn:Ht; auto. right. exists top. rewrite Ht. simpl. auto.
+    - right. exists it. simpl. auto. }
+  destruct (recover_pops tb f st look _); auto.
+Qed.
+
+Lemma recover_outer_errsym f : forall e s s1, recover_outer tb f e s = Continue s1 ->
+  la s1 = ERROR /\
+  (lasym s1 = e \/ exists it, In it (stack s) /\ i_sym it = lasym s1 /\ is_verr (lasym s1)).
+Proof.
+  induction f as [|f IH]; intros e s s1 H; [discriminate|]. cbn [recover_outer] in H.
+  pose proof (recover_pops_errsym (S f) (la s) (stack s) e) as Hp.
+  destruct (recover_pops tb (S f) (stack s) (la s) e) as [st' e'|e'| |]; try discriminate.
+  - inversion H; subst. cbn. split; auto.
+  - destruct (la s =? EOF)%Z; [discriminate|].
+    destruct (read_token tb s) as [s'|] eqn:E; [|discriminate].
+    destruct (IH _ _ _ H) as [Hla Hsym]. split; auto.
+    rewrite (read_token_stack _ _ E) in Hsym.
+    destruct Hsym as [Hs|Hs]; auto. rewrite Hs. exact Hp.
+Qed.
+
+Theorem recover_reports f s s1 : recover tb f s = Continue s1 ->
+  exists e0, recover_errsym s = Some e0 /\ la s1 = ERROR /\
+    (lasym s1 = e0 \/ exists it, In it (stack s) /\ i_sym it = lasym s1 /\ is_verr (lasym s1)).
+Proof.
+  unfold recover. fold (recover_errsym s). intros H.
+  destruct (recover_errsym s) as [e0|]; [|discriminate].
+  destruct (skip_errors tb f s) as [s0| | | |] eqn:E; try discriminate.
+  exists e0. split; auto. rewrite <- (skip_errors_stack _ _ _ E).
+  eapply recover_outer_errsym; eauto.
+Qed.
+
 (* ---------- R7: fuel monotonicity ---------- *)
 Lemma recover_sim_mono f1 : forall f2 st look r, f1 <= f2 -> r <> SimFuel ->
   recover_sim tb f1 st look = r -> recover_sim tb f2 st look = r.
 Proof.
   induction f1 as [|f1 IH]; intros f2 st look r Hle Hr H.
   - simpl in H. congruence.
-  - destruct f2 as [|f2]; [lia|]. simpl in *.
-    destruct (find (t_actions tb) st ERROR) as [action| |]; auto.
+  - destruct f2 as [|f2]; [lia|]. cbn [recover_sim] in *.
+    destruct st as [|state st0]; auto.
+    destruct (find (t_actions tb) state ERROR) as [action| |]; auto.
     destruct (action <? 0)%Z; auto.
+    destruct (nthz (t_term_counts tb) (- action)) as [tc|]; auto.
     destruct (nthz (t_rules tb) (- action)) as [rule|]; auto.
-    destruct (find (t_goto tb) st rule) as [st'| |]; auto; apply IH; auto; lia.
+    destruct (tc <? 0)%Z; auto.
+    destruct (Z.of_nat (length (state :: st0)) <=? tc)%Z; auto.
+    destruct (skipn (Z.to_nat tc) (state :: st0)) as [|exposed rest]; auto.
+    destruct (find (t_goto tb) exposed rule) as [st'| |]; auto; apply IH; auto; lia.
 Qed.
 
 Theorem recover_sim_fuel_monotone f1 f2 st look : f1 <= f2 ->
@@ -103,11 +180,11 @@ Theorem recover_sim_fuel_monotone f1 f2 st look : f1 <= f2 ->
   (recover_sim tb f1 st look = SimCrash -> recover_sim tb f2 st look = SimCrash).
 Proof. intros Hle. repeat split; intros H; eapply recover_sim_mono; eauto; discriminate. Qed.
 
-Lemma recover_pops_mono f1 f2 look : f1 <= f2 -> forall st r, r <> (None, false) ->
-  recover_pops tb f1 st look = r -> recover_pops tb f2 st look = r.
+Lemma recover_pops_mono f1 f2 look : f1 <= f2 -> forall st e r, r <> PFuel ->
+  recover_pops tb f1 st look e = r -> recover_pops tb f2 st look e = r.
 Proof.
-  intros Hle. induction st as [|top st IH]; intros r Hr H; simpl in *; auto.
-  destruct (recover_sim tb f1 (i_state top) look) eqn:E;
+  intros Hle. induction st as [|top st IH]; intros e r Hr H; cbn [recover_pops] in *; auto.
+  destruct (recover_sim tb f1 (map i_state (top :: st)) look) eqn:E;
     try (apply (recover_sim_mono f1 f2) in E; [rewrite E; auto|exact Hle|discriminate]).
   congruence.
 Qed.
@@ -129,11 +206,10 @@ Proof.
   - simpl in H. congruence.
   - destruct f2 as [|f2]; [lia|].
     cbn [recover_outer] in *.
-    destruct (recover_pops tb (S f1) (stack s) (la s)) as [[[st'|]|] [|]] eqn:E;
+    destruct (recover_pops tb (S f1) (stack s) (la s) e) as [st' e'|e'| |] eqn:E;
       try (apply (recover_pops_mono (S f1) (S f2)) in E; [rewrite E|exact Hle|discriminate]);
       try exact H; try congruence.
-    + destruct (la s =? EOF)%Z; auto. destruct (read_token tb s); auto. apply IH; auto; lia.
-    + destruct (la s =? EOF)%Z; auto. destruct (read_token tb s); auto. apply IH; auto; lia.
+    destruct (la s =? EOF)%Z; auto. destruct (read_token tb s); auto. apply IH; auto; lia.
 Qed.
 
 Lemma recover_mono f1 f2 s o : f1 <= f2 -> o <> Fuel ->
@@ -231,6 +307,7 @@ End Agree.
 
 Print Assumptions recover_error_token.
 Print Assumptions recover_errsym_token.
+Print Assumptions recover_reports.
 Print Assumptions recover_sim_fuel_monotone.
 Print Assumptions parse_fuel_monotone_recovery.
 Print Assumptions clean_run_agrees.
